@@ -32,9 +32,10 @@ type Config struct {
 	Invoke     string            `json:"invoke,omitempty"` // srcdot | rootrel | foreignabs
 	Out        string            `json:"out,omitempty"`    // "" = stdout; else path relative to the world root
 	Rm         bool              `json:"rm,omitempty"`
-	RelOut     bool              `json:"rel_out,omitempty"`   // pass -out relative to the working directory instead of absolute
-	RawArgv    []string          `json:"raw_argv,omitempty"`  // if set: used verbatim (C17/C19 hostile invocations)
-	BoolForm   map[string]string `json:"bool_form,omitempty"` // flag name -> literal spelling used instead of the bare flag / omission (e.g. "-with-resets=false")
+	RelOut     bool              `json:"rel_out,omitempty"`    // pass -out relative to the working directory instead of absolute
+	RawArgv    []string          `json:"raw_argv,omitempty"`   // if set: used verbatim (C17/C19 hostile invocations)
+	BoolForm   map[string]string `json:"bool_form,omitempty"`  // flag name -> literal spelling used instead of the bare flag / omission (e.g. "-with-resets=false")
+	LastFlags  []string          `json:"last_flags,omitempty"` // literal arguments placed after all flags, right in front of the source directory
 }
 
 // Case is a world plus a command line.
@@ -250,6 +251,7 @@ func (c *Case) Argv(world string) (argv []string, cwd string) {
 		}
 		argv = append(argv, "-out", out)
 	}
+	argv = append(argv, cfg.LastFlags...)
 	argv = append(argv, srcArg)
 	argv = append(argv, cfg.Args...)
 	return argv, cwd
